@@ -2,6 +2,7 @@ import Driver.Proto
 import PqModel.Aad
 import PqModel.EncWalk
 import PqModel.EncConfig
+import PqModel.AadReader
 
 namespace Driver.Ops.C18
 open Driver PqModel.Aad
@@ -62,6 +63,32 @@ def parseWOp? (s : String) : Option WOp :=
     | _, _, _ => none
   | _ => none
 
+/-- one API call of a reader history: `r` = ReadPage, `s:<row>` = SeekToRow(row), `d` = ReadDictionary -/
+def parsePOp? (s : String) : Option POp :=
+  match s.splitOn ":" with
+  | ["r"] => some .readPage
+  | ["d"] => some .readDictionary
+  | ["s", row] => (parseNat? row).map .seek
+  | _ => none
+
+def presText : PRes × Nat → String
+  | (.page i cut, n) => s!"page:{i}:{cut}:{n}"
+  | (.eof, n) => s!"eof:{n}"
+  | (.done, n) => s!"done:{n}"
+
+/-- `aad.prun <rg> <col> <has dictionary 0/1> <offset index loaded 0/1> <rows per data page> <page is
+    dictionary-encoded 0/1, per data page> <call> ...` ->
+    `ok <result:…:modules opened so far, per call> <slot opened, in order> <all opened with the slot's arguments 0/1>` -/
+def handlePrun (rg col hasDict indexed rows enc : String) (ops : List String) : String :=
+  match parseNat? rg, parseNat? col, parseNat? hasDict, parseNat? indexed, parseCols? rows, parseCols? enc, ops.mapM parsePOp? with
+  | some rg, some col, some hd, some ix, some rows, some enc, some ops =>
+    let pc : PChunk := { c := { rg := rg, col := col, hasDict := hd != 0, npages := rows.length }, rows := rows,
+                         dictEnc := enc.map (· != 0), indexed := ix != 0 }
+    let out := prun pc ops
+    let good := out.1.r.log.all (fun e => e.used == e.slot.used)
+    s!"ok {showList presText out.2} {showList (fun (e : Ev) => slotText e.slot) out.1.r.log} {if good then 1 else 0}"
+  | _, _, _, _, _, _, _ => "bad-op"
+
 /-- one token of an option structure: `E<id>` / `E-` = `WithEncryption(cfg)` / `WithEncryption(nil)`,
     `S<id>` / `S-` = a configuration struct with / without the field, `O` = any other option,
     `[` … `]` = `NewWriterConfig(…)` whose result is passed on as one struct option -/
@@ -99,6 +126,7 @@ def handleCfg (toks : List String) : String :=
 def handle (toks : List String) : Option String :=
   match toks with
   | "enc.config" :: cfg => some (handleCfg cfg)
+  | "aad.prun" :: rg :: col :: hasDict :: indexed :: rows :: enc :: ops => some (handlePrun rg col hasDict indexed rows enc ops)
   | "aad.wrun" :: ncols :: dict :: bloom :: reread :: plain :: ops => some <|
     match parseNat? ncols, parseCols? dict, parseCols? bloom, parseCols? reread, parseNat? plain, ops.mapM parseWOp? with
     | some ncols, some dict, some bloom, some reread, some plain, some ops =>
